@@ -8,8 +8,9 @@ fuzz_target!(|data: &[u8]| {
     match khttp::Response::parse(data) {
         Ok(r) => {
             let h = &r.headers;
-            feature(&[1, h.get_count().min(6) as u64, digits(h.get_content_length()), h.is_transfer_encoding_chunked() as u64, r.status.code as u64 / 100,
-                      r.status.reason.len().min(12) as u64, r.http_version as u64]);
+            feature(&[1, h.get_count().min(6) as u64, digits(h.get_content_length()), h.is_transfer_encoding_chunked() as u64]);
+            let rb = match r.status.reason.len() { 0 => 0u64, 1..=7 => 1, 8 => 2, _ => 3 };
+            feature(&[2, r.status.code as u64 / 100, rb, r.http_version as u64]);
         }
         Err(e) => feature(&[0, format!("{:?}", e).len() as u64, data.len().min(40) as u64]),
     }
